@@ -89,6 +89,12 @@ fn check_text<T: Plain>(t: &[u8]) -> Result<&'static str, String> {
             return Err(format!("str::parse gives {} but from_bytes gives {}", h2, h));
         }
     }
+    // the entry point that reports where the hash part ends: same object, and "up to the comma" means up to that index
+    let mut idx = usize::MAX;
+    let h3 = guarded(|| T::parse_bytes_idx(t, &mut idx))?.map_err(|e| format!("accepted text rejected by from_bytes_with_last_index: {:?}", e))?;
+    if h3 != h || !h3.full_eq(&h) || idx != p.end {
+        return Err(format!("from_bytes_with_last_index gives {} and end index {} (the hash part ends at {}); from_bytes gives {}", h3, idx, p.end, h));
+    }
     let s = guarded(|| h.string())?;
     if T::NORM {
         let exp = rt::format(p.log, &refmodel::normalize(&p.bh1), &refmodel::normalize(&p.bh2));
